@@ -108,7 +108,7 @@ impl LazyBigint {
     pub(crate) fn magnitude_to_str(&self, radix: u32) -> String {
         match self {
             Self::Short(s) => {
-                let mag = s.abs();
+                let mag = s.unsigned_abs();
                 match radix {
                     2 => format!("{mag:b}"),
                     8 => format!("{mag:o}"),
